@@ -1,0 +1,40 @@
+//go:build verif
+
+package bls
+
+// Contracts for the deductive checker in /verif (comment-only; compiled only under the verif tag).
+// coreVerify, coreAggregateVerify, popVerify and AugmentMessage are deterministic functions of their arguments.
+
+//@ pure func goodPoint(p V) bool = p.IsTorsionFree() && !p.IsOpIdentity()
+
+// Single verification accepts only a non-empty message, a public key and a signature that are non-identity
+// members of the prime-order subgroups, a valid proof of possession when the scheme is POP, and a core
+// verification of exactly this key, this signature and this (scheme-augmented) message.
+// (purefn: the only state Verify writes is the lazily derived domain-separation tag, itself a function of the
+// verifier's fixed configuration; callers may therefore name its result.)
+//@ func (*Verifier).Verify
+//@   property C15
+//@   purefn
+//@   let msg = ite(v.rogueKeyAlg == MessageAugmentation, res(AugmentMessage(message, publicKey.Value()), 0), message)
+//@   ensures result == nil ==> len(old(message)) != 0 && goodPoint(publicKey.Value()) && goodPoint(signature.Value())
+//@   ensures (result == nil && v.rogueKeyAlg == POP) ==> signature.Pop() != nil && popVerify(publicKey.Value(), signature.Pop().v, v.signatureSubGroup, v.cipherSuite.GetPopDst(v.variant)) == nil
+//@   ensures result == nil ==> (v.rogueKeyAlg == Basic || v.rogueKeyAlg == MessageAugmentation || v.rogueKeyAlg == POP)
+//@   ensures result == nil ==> coreVerify(publicKey.Value(), msg, signature.Value(), v.dst, v.signatureSubGroup) == nil
+
+// Aggregate verification accepts only if there is one message per key, every key and the signature are
+// non-identity subgroup members, and: under POP there is exactly one valid proof of possession per key, in order;
+// under Basic and MessageAugmentation no proofs are configured, and under Basic the messages are pairwise distinct.
+//@ func (*Verifier).AggregateVerify
+//@   property C15
+//@   ensures result == nil ==> len(publicKeys) == len(messages) && goodPoint(signature.Value())
+//@   ensures result == nil ==> forall t int :: 0 <= t && t < len(publicKeys) ==> goodPoint(publicKeys[t].Value())
+//@   ensures (result == nil && v.rogueKeyAlg == POP) ==> len(publicKeys) == len(v.pops) && (forall t int :: 0 <= t && t < len(v.pops) ==> popVerify(publicKeys[t].Value(), v.pops[t].Value(), v.signatureSubGroup, v.cipherSuite.GetPopDst(v.variant)) == nil)
+//@   ensures (result == nil && v.rogueKeyAlg != POP) ==> len(v.pops) == 0
+//@   ensures (result == nil && v.rogueKeyAlg == Basic) ==> sliceutils.IsAllUnique(sliceutils.Map(messages, hex.EncodeToString))
+//@   ensures result == nil ==> (v.rogueKeyAlg == Basic || v.rogueKeyAlg == MessageAugmentation || v.rogueKeyAlg == POP)
+//@   loop range(publicKeys)
+//@     invariant forall t int :: 0 <= t && t < i ==> goodPoint(publicKeys[t].Value())
+//@   loop range(v.pops)
+//@     invariant forall t int :: 0 <= t && t < i ==> popVerify(publicKeys[t].Value(), v.pops[t].Value(), v.signatureSubGroup, popDst) == nil
+//@   loop range(publicKeys)#2
+//@     invariant true
